@@ -254,7 +254,6 @@ namespace occa {
 
         expr blockIterator(declVarSource, blockIter);
         expr iterator(*oklForSmnt.iterator);
-        expr tileSizeExpr = &tileSize;
 
         initDecls.push_back(
           variableDeclaration(*oklForSmnt.iterator,
@@ -263,11 +262,14 @@ namespace occa {
 
         // Create check statement
         // Note: At this point, the tile for-loop has an update
-        //       with either an [+=] or [-=] update operator
+        //       with either an [+=] or [-=] update operator whose
+        //       right-hand side is the extent of one tile:
+        //       TILE for ++/-- and ((TILE) * (INC)) for +=/-=
+        expr tileExtent = expr::parens(updateExpr.rightValue);
         expr bounds = expr::parens(
           (updateExpr.opType() & operatorType::addEq)
-          ? blockIterator + tileSizeExpr
-          : blockIterator - tileSizeExpr
+          ? blockIterator + tileExtent
+          : blockIterator - tileExtent
         );
 
         const binaryOperator_t &checkOp = (const binaryOperator_t&) checkExpr.op;
